@@ -1,7 +1,7 @@
 #!/bin/bash
 # devseed.sh <patch.diff> <ids…> : like seedrun.sh but in the private dev environment (/tmp/dev), for development.
 P="$1"; shift
-git -C /tmp/dev/repo checkout -q -- . ; git -C /tmp/dev/repo checkout -q --detach $(git -C /repo rev-parse HEAD)
+git -C /tmp/dev/repo checkout -q -- . ; git -C /tmp/dev/repo checkout -q --detach $(cat /tmp/dev/REV 2>/dev/null || git -C /repo rev-parse HEAD)
 git -C /tmp/dev/repo apply "$P" || { echo "patch does not apply"; exit 3; }
 trap 'git -C /tmp/dev/repo checkout -q -- .' EXIT
 for id in "$@"; do
